@@ -92,6 +92,15 @@ func (l *lexer) next() (r rune) {
 		l.pos -= l.start
 		l.start = 0
 	}
+	for l.pos < len(l.input) && !utf8.FullRuneInString(l.input[l.pos:]) {
+		// a multi-byte character split between two reads: get the rest
+		s, ok := <-l.inputs
+		if !ok {
+			break
+		}
+		l.lpUpd(s, l.posShift+len(l.input))
+		l.input += s
+	}
 	r, l.width = utf8.DecodeRuneInString(l.input[l.pos:])
 	if l.width == 0 {
 		return eof
